@@ -20,6 +20,11 @@ ORDER_SENSITIVE_CONSUMERS = {'list', 'tuple', 'enumerate', 'iter', 'next', 'zip'
 DETERMINISTIC_ELEMS = {'int', 'bool'}
 
 
+def _keyed_sort(call: ast.Call) -> bool:
+    """sorted / min / max with a key: elements that tie on the key keep their input order (first wins), i.e. set order"""
+    return isinstance(call.func, ast.Name) and call.func.id in ('sorted', 'min', 'max') and any(k.arg == 'key' for k in call.keywords)
+
+
 @dataclass
 class Site:
     module: str
@@ -88,7 +93,7 @@ class OrderAnalysis:
                                                           and e.func.id in ('set', 'frozenset'))
 
     # ------------------------------------------------------------------
-    def local_env(self, fn: ast.FunctionDef) -> dict[str, str]:
+    def local_env(self, fn: ast.FunctionDef, ci=None) -> dict[str, str]:
         env: dict[str, str] = {}
         for a in fn.args.posonlyargs + fn.args.args + fn.args.kwonlyargs:
             e = ann_set_elem(ast.unparse(a.annotation)) if a.annotation else None
@@ -111,7 +116,7 @@ class OrderAnalysis:
                     continue
                 e = ann_set_elem(ann) if ann else None
                 if e is None and val is not None:
-                    e = self.set_elem(val, env, None)
+                    e = self.set_elem(val, env, ci)
                 if e is not None and env.get(tgt) != e:
                     if tgt not in env:
                         env[tgt] = e
@@ -173,7 +178,7 @@ class OrderAnalysis:
             for c in mi.classes.values():
                 fns += [(f'{c.name}.{f.name}', f, c) for f in c.methods.values()]
             for qn, fn, ci in fns:
-                env = self.local_env(fn)
+                env = self.local_env(fn, ci)
                 parents = {}
                 for p in ast.walk(fn):
                     for ch in ast.iter_child_nodes(p):
@@ -194,7 +199,7 @@ class OrderAnalysis:
                     elif isinstance(node, ast.Call):
                         f = node.func
                         name = f.id if isinstance(f, ast.Name) else (f.attr if isinstance(f, ast.Attribute) else None)
-                        if isinstance(f, ast.Name) and name in ORDER_SENSITIVE_CONSUMERS:
+                        if isinstance(f, ast.Name) and (name in ORDER_SENSITIVE_CONSUMERS or _keyed_sort(node)):
                             for a in node.args:
                                 el = self.set_elem(a, env, ci)
                                 if el is not None:
@@ -247,7 +252,8 @@ class OrderAnalysis:
         if isinstance(comp, ast.SetComp):
             return True, 'builds a set'
         par = parents.get(comp)
-        if isinstance(par, ast.Call) and isinstance(par.func, ast.Name) and par.func.id in ORDER_FREE_CONSUMERS:
+        if isinstance(par, ast.Call) and isinstance(par.func, ast.Name) and par.func.id in ORDER_FREE_CONSUMERS \
+                and not _keyed_sort(par):
             return True, f'consumed by {par.func.id}()'
         if isinstance(par, ast.Call) and isinstance(par.func, ast.Attribute) and par.func.attr in ('update', 'union', 'intersection', 'difference', 'issubset', 'issuperset'):
             return True, f'consumed by set.{par.func.attr}()'
@@ -255,7 +261,8 @@ class OrderAnalysis:
 
     def call_consumer(self, call, parents):
         par = parents.get(call)
-        if isinstance(par, ast.Call) and isinstance(par.func, ast.Name) and par.func.id in ORDER_FREE_CONSUMERS:
+        if isinstance(par, ast.Call) and isinstance(par.func, ast.Name) and par.func.id in ORDER_FREE_CONSUMERS \
+                and not _keyed_sort(par):
             return True, f'result consumed by {par.func.id}()'
         return False, ''
 
